@@ -39,7 +39,7 @@ def _finite_timeout(p, wait_ev):
     return isinstance(a, (int, float)) and not isinstance(a, bool) and 0 < a <= 600
 
 
-@rule("R17.1", ["C17"], "T-ORD", floor=20)
+@rule("R17.1", ["C17", "C14"], "T-ORD", floor=20)
 def r17_1(ctx):
     """formNetwork, leaveNetwork and network bring-up, over command outcomes {accepted, refused, raises,
     cancelled} x event wait {arrives, timeout, cancelled}: the listener for the matching status (NETWORK_UP /
